@@ -198,12 +198,18 @@ CHECKS = {
         level="model_checking",
         mc=[dict(module="MC_Vanity", cfg="MC_Vanity_N%d.cfg" % n, tag="MC_Vanity_N%d" % n, workers=16) for n in (0, 1, 2, 3)]
            + [dict(module="MC_Vanity", cfg="MC_Vanity_N4.cfg", tag="MC_Vanity_N4", workers=16, tiers=("thorough",), env=dict(VERIF_VANITY_REQ="4"))]
-           + [dict(module="MC_Prefix", workers=8)],
+           + [dict(module="MC_Prefix", workers=8),
+              # unbounded number of requests: inductive invariant discharged symbolically
+              dict(apalache="VanityInd", tag="VanityInd_N3", cinit="ConstInit", init="Init", indinit="IndInit", inv="IndInv"),
+              dict(apalache="VanityInd", tag="VanityInd_N6", cinit="ConstInit6", init="Init", indinit="IndInit", inv="IndInv",
+                   tiers=("thorough",))],
         gen=[dict(module="Gen_C18", slices=dict(quick=8, thorough=8), profiles=dict(quick=["dev"], thorough=["dev", "release"]))],
         rule="MC_Vanity: all interleavings of main + N in 0..3 (thorough: 0..4) workers + channel + granting/refusing entropy environment "
              "(3 abstract candidates, every matching subset, <= 4 (quick) / 5 (thorough) requests): a printed phrase is a "
              "granted match, the judge's observer fold admits every behaviour (no false alarm), pending messages lead "
-             "to exit (liveness under weak fairness); MC_Prefix: prefix grammar over all strings <= 4 over "
+             "to exit (liveness under weak fairness); Apalache discharges the inductive invariant VanityInd!IndInv (Init => Inv, "
+             "Inv /\\ Next => Inv') for 3 (thorough: 6) workers WITHOUT a bound on the number of requests: a printed phrase is a "
+             "granted match in every reachable state; MC_Prefix: prefix grammar over all strings <= 4 over "
              "{0..9 a f A F g x}; Gen_C18: real searches under the entropy shim: 22 single digits x -j {0,1,2,16}, "
              "two-digit (three-digit thorough) prefixes in lower/upper/mixed case, vanity password/index/path/length "
              "variants, repetitions, non-hex prefixes and unusable selectors",
